@@ -29,6 +29,11 @@ instance : Monad Res where
   pure := .ok
   bind := Res.bind
 
+instance : LawfulMonad Res := LawfulMonad.mk'
+  (id_map := fun x => by cases x <;> rfl)
+  (pure_bind := fun _ _ => rfl)
+  (bind_assoc := fun x _ _ => by cases x <;> rfl)
+
 @[simp] theorem bind_ok {α β : Type} (a : α) (f : α → Res β) : (Res.ok a >>= f) = f a := rfl
 @[simp] theorem bind_panic {α β : Type} (w : PanicKind) (f : α → Res β) :
     ((Res.panic w : Res α) >>= f) = Res.panic w := rfl
